@@ -5,7 +5,6 @@ deletion, append of the constructor's own result) before `spox.build`.  The prog
 constructed; the built model must compute it.  Model-free: public constructors, `spox.build`, onnxruntime
 (onnx.reference as second runtime), numpy expectation.
 """
-from __future__ import annotations
 
 import importlib
 import random
